@@ -132,6 +132,24 @@ def valueTexts : List Cell → List Value → List Str
   | .fld _ _ :: _, [] => []
   | .other _ :: cs, vs => [] :: valueTexts cs vs
 
+/-- the replacement fields of a line with the values they format, in order -/
+def cellValues : List Cell → List Value → List (Spec × Value)
+  | [], _ => []
+  | .lit _ :: cs, vs => cellValues cs vs
+  | .fld _ spec :: cs, v :: vs => (spec, v) :: cellValues cs vs
+  | .fld _ _ :: _, [] => []
+  | .other _ :: _, _ => []
+
+/-- the numeric (`f`) cells of a line -/
+def fixSpecs (cells : List Cell) : List Spec :=
+  cells.filterMap fun c => match c with
+    | .fld _ sp => if sp.ty = .fix then some sp else none
+    | _ => none
+
+/-- a numeric cell has room for the sign, at least one integer digit, the point and its decimals -/
+def Spec.hasRoom (sp : Spec) : Bool :=
+  decide (1 + (if sp.prec.getD 6 = 0 then 0 else sp.prec.getD 6 + 1) < sp.width)
+
 /-- no value text has outer blanks -/
 def allClean : List Cell → List Value → Bool
   | [], _ => true
